@@ -167,6 +167,8 @@ def check_metamodule(res, c):
         siblings(res, m, desc)
     recount(res, m, desc)
     unmap(res, m, desc)
+    if c.index % 4 == 1:
+        failed_save_then_fixed(res, m, desc)
     p = api.Project()
     p.attach_module(m)
     S_proj = build.norm_module(snapshot.snap_module(m, "project"), "before")
@@ -286,6 +288,89 @@ def unmap(res, m, desc):
                       f"in memory and {after[i]} after save/load", desc)
 
 
+def failed_save_then_fixed(res, m, desc):
+    """A save that fails half way (a field of the innermost embedded project holds something unwritable) leaves nothing
+    behind: once the field is put right, saving works and gives the bytes it gave before."""
+    import rv.api as api
+    cl = m.clone()
+    try:
+        good = api.Synth(cl).read()
+    except Exception:
+        return
+    proj, depth = cl.project, 0
+    while True:
+        inner = [x for x in proj.modules if x is not None and x.mtype == "MetaModule"]
+        if not inner:
+            break
+        proj, depth = inner[0].project, depth + 1
+    field, bad = (("initial_bpm", 120.5), ("initial_tpl", "6"), ("global_volume", None))[depth % 3]
+    keep = getattr(proj, field)
+    setattr(proj, field, bad)
+    try:
+        api.Synth(cl).read()
+        res.count("failed_save_did_not_fail")
+        setattr(proj, field, keep)
+        return
+    except Exception:
+        pass
+    setattr(proj, field, keep)
+    res.count("failed_saves_then_fixed")
+    res.hist("failed_save_depth", depth)
+    try:
+        again = api.Synth(cl).read()
+    except Exception as e:
+        res.violation(f"C15:save-after-failed-save-raises:{workload.exc_key(e)}", f"a save failed (embedded project depth {depth}, {field}={bad!r}); with the field restored the next save raises {e!r}", desc)
+        return
+    if again != good:
+        res.violation("C15:save-after-failed-save-differs", f"after a failed and a repaired save the bytes differ from the first save (depth {depth})", desc)
+
+
+def nested_repoint(res, rng, k):
+    """outer MetaModule -> inner MetaModule -> module: the inner controller is pointed at another controller (another kind of
+    range), both levels re-derive their mappings; what the outer controller reads is what a saved and re-loaded copy reads."""
+    import rv.api as api
+    from rv.modules import MODULE_CLASSES
+    sp = spec.load()
+    cands = [(T, i, sc) for T, t in sorted(sp.items()) if T not in ("Output", "MetaModule") for i, sc in enumerate(t.controllers)
+             if sc.kind in ("range", "compact", "no_offset") and sc.attached]
+    for _ in range(k):
+        (T1, i1, s1), (T2, i2, s2) = rng.choice(cands), rng.choice(cands)
+        desc = {"scenario": "nested-repoint", "first_target": f"{T1}.{s1.name}", "second_target": f"{T2}.{s2.name}"}
+        res.case(("nested-repoint", T1, s1.name, T2, s2.name))
+        inner_p = api.Project()
+        a = inner_p.new_module(MODULE_CLASSES[sp[T1].mtype])
+        b = inner_p.new_module(MODULE_CLASSES[sp[T2].mtype])
+        inner = api.m.MetaModule(project=inner_p)
+        inner.user_defined_controllers = 1
+        inner.mappings.values[0] = inner.Mapping((a.index, i1))
+        inner.update_user_defined_controllers()
+        outer_p = api.Project()
+        outer_p.attach_module(inner)
+        outer = api.m.MetaModule(project=outer_p)
+        outer.user_defined_controllers = 1
+        outer.mappings.values[0] = outer.Mapping((inner.index, 5))          # the inner module's first user-defined controller
+        outer.update_user_defined_controllers()
+        try:
+            setattr(a, s1.name, rng.randint(s1.min, s1.max))
+            setattr(b, s2.name, rng.randint(s2.min, s2.max))
+        except Exception:
+            pass
+        inner.mappings.values[0] = inner.Mapping((b.index, i2))
+        inner.update_user_defined_controllers()
+        outer.update_user_defined_controllers()
+        res.count("nested_repoint_cases")
+        try:
+            before = _cmp((outer.user_defined_1, outer.get_raw("user_defined_1")))
+            again = outer.clone()
+            after = _cmp((again.user_defined_1, again.get_raw("user_defined_1")))
+        except Exception as e:
+            res.violation(f"C15:unloadable:{workload.exc_key(e)}", f"nested MetaModules do not save/load after the inner mapping was changed: {e!r}", desc)
+            continue
+        if before != after:
+            res.violation("C15:nested-repoint-changes-on-reload", f"outer controller reads {before} (value, stored) in memory and {after} after save/load "
+                                                                  f"(inner mapping moved from {T1}.{s1.name} {s1.min}..{s1.max} to {T2}.{s2.name} {s2.min}..{s2.max})", desc)
+
+
 def _cmp(pair):
     v, raw = pair
     return (getattr(v, "value", v), raw)
@@ -321,6 +406,8 @@ def run_shard(spec_, res):
             S = snapshot.snap_module(c.obj, "synth")
             res.sample({"index": i, "count": S["payload"]["count"], "mappings_head": S["payload"]["mappings"][:4],
                         "labels": S["payload"]["labels"], "embedded_modules": [None if m is None else m["type"] for m in S["payload"]["project"]["modules"]]})
+    import random as _random
+    nested_repoint(res, _random.Random(spec_["seed"] * 31 + spec_["shard"]), 40 if spec_["tier"] == "quick" else 400)
     for name, msg in monitors.take_failures():
         res.violation(f"C15:ambient:{name}", msg, {"monitor": name})
     res.exhaustive = True
